@@ -551,6 +551,53 @@ def check_text(rep, B):
             f.close()
 
 
+def check_text_append_bom(rep, B):
+    """appending text with an encoding that writes a byte-order mark: io.open(..., 'a') on an
+    existing non-empty file writes no second BOM (TextIOWrapper looks at tell()); the stored bytes,
+    the text read back and the reported size must equal what a real io file gives"""
+    import os as _os
+    import tempfile as _tf
+
+    for kind in ("mem", "os"):
+        f = B.make(kind)
+        try:
+            for enc in ("utf-16", "utf-32", "utf-8-sig", "utf-16-le", "utf-8"):
+                for first, second in (("alpha", "beta"), ("", "x"), ("é\n", "ü"), ("a", "")):
+                    for how in ("appendtext", "open-a"):
+                        rep.evaluations += 1
+                        rep.programs += 1
+                        rep.nontrivial("text-append", kind, enc, first, second, how)
+                        d = _tf.mkdtemp()
+                        ref = _os.path.join(d, "r.txt")
+                        try:
+                            with io.open(ref, "w", encoding=enc, newline="") as h:
+                                h.write(first)
+                            with io.open(ref, "a", encoding=enc, newline="") as h:
+                                h.write(second)
+                            want = open(ref, "rb").read()
+                            want_text = io.open(ref, "r", encoding=enc, newline="").read()
+                        finally:
+                            import shutil as _sh
+                            _sh.rmtree(d, ignore_errors=True)
+                        f.writetext("b.txt", first, encoding=enc)
+                        if how == "appendtext":
+                            f.appendtext("b.txt", second, encoding=enc)
+                        else:
+                            with f.open("b.txt", "a", encoding=enc, newline="") as h:
+                                h.write(second)
+                        got = f.readbytes("b.txt")
+                        case = {"kind": "text-append", "backend": kind, "encoding": enc, "first": first, "second": second, "how": how}
+                        if got != want:
+                            fail(rep, case, "%s: writetext(%r) then %s(%r) with encoding %r stored %r, an io file holds %r"
+                                 % (kind, first, how, second, enc, got[:40], want[:40]), "C02/%s/text-append" % kind)
+                        elif f.readtext("b.txt", encoding=enc) != want_text or f.getsize("b.txt") != len(want):
+                            fail(rep, case, "%s: text appended with encoding %r reads back as %r (io: %r), size %d (io: %d)"
+                                 % (kind, enc, f.readtext("b.txt", encoding=enc)[:30], want_text[:30], f.getsize("b.txt"), len(want)),
+                                 "C02/%s/text-append-read" % kind)
+        finally:
+            f.close()
+
+
 # ----------------------------------------------------------------------------- run / replay
 
 
@@ -579,6 +626,7 @@ def run(rep, tier, seed, deep=False):
         check_matrix(rep, rng, B, chunks, tier)
         check_cross(rep, rng, B, [1, 7, 4096] if quick else [1, 7, 4096, 65536])
         check_text(rep, B)
+        check_text_append_bom(rep, B)
         rep.extra["exhaustive"] = True
         if B.lost() and rep.violations:
             raise vlib.Infra("scratch directories %r were removed by a concurrent run; differences seen in this "
